@@ -16,8 +16,9 @@ package main
 //     Replicas == ISR == [0] (so every node id in the reply is the id of the one listed broker);
 //   - each topic entry appended carries the input topic's error code, name, topic id and internal flag and the
 //     partition list just built, which has one entry per input partition.
-// That an element is not modified after it was appended is NOT a clause (no statement of the function writes
-// through topics[k] / partitions[j] again; the engine's quantified frame reasoning over nested slices times out).
+// The whole-reply clauses (topics_kept, all_partitions_point_at_proxy) are proved with loop invariants that also carry
+// the frame (the input is not written; entries appended earlier are not modified by later iterations); this needs the
+// engine to know that slices nested in stored structs are not fresh (`deep_closedness`).
 //@ func buildProxyMetadataResponse
 //@   deep_closedness
 //@   ensures [C28.only_broker_is_proxy] result != nil && len(result.Brokers) == 1 && result.Brokers[0].NodeID == 0 && result.Brokers[0].Host == host && result.Brokers[0].Port == port
@@ -28,4 +29,72 @@ package main
 //@   loop 2 invariant [C28.partition_count] -1 <= rangeindex_2 && rangeindex_2 < len(topic.Partitions) && len(partitions) == rangeindex_2 + 1 && cap(partitions) == len(topic.Partitions)
 //@   at append#1 before assert [C28.partition_points_at_proxy] len(arg1) == 1 && c28PartRewritten(arg1[0], meta.Topics[rangeindex_1].Partitions[rangeindex_2])
 //@   at append#2 before assert [C28.topic_kept] len(arg1) == 1 && c28TopicKept(arg1[0], meta.Topics[rangeindex_1]) && sameSlice(arg1[0].Partitions, partitions)
-//@   ensures [C28.reply_topics_are_the_built_list] sameSlice(result.Topics, topics)
+//@   ensures [C28.topics_kept] forall i int :: 0 <= i && i < len(result.Topics) ==> c28TopicKept(result.Topics[i], old(meta.Topics[i]))
+//@   ensures [C28.all_partitions_point_at_proxy] forall i int, j int :: 0 <= i && i < len(result.Topics) && 0 <= j && j < len(result.Topics[i].Partitions) ==> c28PartRewritten(result.Topics[i].Partitions[j], old(meta.Topics[i].Partitions[j]))
+//@   loop 1 invariant base(topics) != base(meta.Topics) && (forall k int :: 0 <= k && k < len(meta.Topics) ==> meta.Topics[k] == old(meta.Topics[k]))
+//@   loop 1 invariant forall k int, j int :: 0 <= k && k < len(meta.Topics) && 0 <= j && j < len(meta.Topics[k].Partitions) ==> meta.Topics[k].Partitions[j] == old(meta.Topics[k].Partitions[j])
+//@   loop 1 invariant forall k int :: 0 <= k && k < len(topics) ==> c28TopicKept(topics[k], old(meta.Topics[k]))
+//@   loop 1 invariant forall k int, j int :: 0 <= k && k < len(topics) && 0 <= j && j < len(topics[k].Partitions) ==> c28PartRewritten(topics[k].Partitions[j], old(meta.Topics[k].Partitions[j]))
+//@   loop 2 invariant forall k int, j int :: 0 <= k && k < len(meta.Topics) && 0 <= j && j < len(meta.Topics[k].Partitions) ==> meta.Topics[k].Partitions[j] == old(meta.Topics[k].Partitions[j])
+//@   loop 2 invariant forall k int, j int :: 0 <= k && k < len(topics) && 0 <= j && j < len(topics[k].Partitions) ==> c28PartRewritten(topics[k].Partitions[j], old(meta.Topics[k].Partitions[j]))
+//@   loop 2 invariant (forall k int :: 0 <= k && k < len(meta.Topics) ==> base(meta.Topics[k].Partitions) != base(partitions)) && (forall k int :: 0 <= k && k < len(topics) ==> base(topics[k].Partitions) != base(partitions))
+//@   loop 2 invariant forall j int :: 0 <= j && j < len(partitions) ==> c28PartRewritten(partitions[j], old(meta.Topics[rangeindex_1].Partitions[j]))
+
+// FindCoordinator: the reply names the proxy (node 0, advertised host/port), no error.
+//@ func (p *proxy) handleFindCoordinator
+//@   at EncodeResponse#1 before assert [C28.coordinator_is_proxy] as(arg2, "*kmsg.FindCoordinatorResponse").NodeID == 0 && as(arg2, "*kmsg.FindCoordinatorResponse").Host == p.advertisedHost && as(arg2, "*kmsg.FindCoordinatorResponse").Port == p.advertisedPort && as(arg2, "*kmsg.FindCoordinatorResponse").ErrorCode == 0 && len(as(arg2, "*kmsg.FindCoordinatorResponse").Coordinators) == 0
+//@   at EncodeResponse#1 before assert [C28.coordinator_reply_header] arg0 == header.CorrelationID && arg1 == header.APIVersion
+//@   at EncodeResponse#1 before stop
+
+// Metadata: the reply that is encoded is the rewritten response, built for the proxy's advertised address from the
+// metadata that loadMetadata returned.
+//@ func (p *proxy) handleMetadata
+//@   ghost gresp *kmsg.MetadataResponse = nil
+//@   ghost gmeta *metadata.ClusterMetadata = nil
+//@   at loadMetadata#1 after set gmeta = ret0
+//@   at buildProxyMetadataResponse#1 before assert [C28.metadata_uses_advertised_address] arg0 == gmeta && arg3 == p.advertisedHost && arg4 == p.advertisedPort
+//@   at buildProxyMetadataResponse#1 after set gresp = ret0
+//@   at EncodeResponse#1 before assert [C28.metadata_reply_is_rewritten_response] as(arg2, "*kmsg.MetadataResponse") == gresp && arg0 == header.CorrelationID && arg1 == header.APIVersion
+//@   at EncodeResponse#1 before stop
+
+// Not-ready replies (sent while the proxy has no usable backends): the metadata reply lists no broker, no controller
+// (-1) and, per requested topic, an entry with REQUEST_TIMED_OUT and no partitions - it names nobody, so in particular
+// nobody but the proxy; the coordinator reply names no node (-1) with REQUEST_TIMED_OUT.
+//@ func (p *proxy) buildNotReadyResponse
+//@   loop 1 invariant [C28.not_ready_metadata_topics] resp != nil && len(resp.Brokers) == 0 && resp.ControllerID == -1 && -1 <= rangeindex_1 && rangeindex_1 < len(metaReq.Topics) && len(resp.Topics) == rangeindex_1 + 1 && (forall k int :: 0 <= k && k < len(resp.Topics) ==> resp.Topics[k].ErrorCode == 7 && len(resp.Topics[k].Partitions) == 0)
+//@   at append#1 before assert [C28.not_ready_metadata_topic_entry] len(arg1) == 1 && arg1[0].ErrorCode == 7 && len(arg1[0].Partitions) == 0 && arg1[0].Topic == metaReq.Topics[rangeindex_1].Topic && arg1[0].TopicID == metaReq.Topics[rangeindex_1].TopicID
+//@   at encode#1 before assert [C28.not_ready_metadata_names_no_broker] len(as(arg0, "*kmsg.MetadataResponse").Brokers) == 0 && as(arg0, "*kmsg.MetadataResponse").ControllerID == -1 && len(as(arg0, "*kmsg.MetadataResponse").Topics) == len(metaReq.Topics) && (forall k int :: 0 <= k && k < len(as(arg0, "*kmsg.MetadataResponse").Topics) ==> as(arg0, "*kmsg.MetadataResponse").Topics[k].ErrorCode == 7 && len(as(arg0, "*kmsg.MetadataResponse").Topics[k].Partitions) == 0)
+//@   at encode#1 before stop
+//@   at encode#2 before assert [C28.not_ready_coordinator_names_nobody] as(arg0, "*kmsg.FindCoordinatorResponse").NodeID == -1 && as(arg0, "*kmsg.FindCoordinatorResponse").ErrorCode == 7 && as(arg0, "*kmsg.FindCoordinatorResponse").Host == "" && len(as(arg0, "*kmsg.FindCoordinatorResponse").Coordinators) == 0
+//@   at encode#2 before stop
+//@   at NewPtrProduceResponse#1 before stop
+//@   at NewPtrFetchResponse#1 before stop
+
+// loadMetadata: which cluster metadata the reply is built from.
+//  - request without topic ids: exactly what the store returns for the requested names, in request order (nil names
+//    skipped; "all topics" = no names);
+//  - request with a topic id: the store's full snapshot, filtered: one entry per requested non-zero id, in request
+//    order - the snapshot topic carrying that id, or an UNKNOWN_TOPIC_ID entry with that id and no partitions;
+//    brokers / cluster id / controller are the snapshot's.
+// The Store interface is outside contracts: a nil error comes with a non-nil snapshot (assumed at the two call sites).
+//@ func (p *proxy) loadMetadata
+//@   nullable req
+//@   deep_closedness
+//@   ghost gall *metadata.ClusterMetadata = nil
+//@   ghost gn int = 0
+//@   at Metadata#1 after assume ret1 == nil ==> ret0 != nil
+//@   at Metadata#2 after assume ret1 == nil ==> ret0 != nil
+//@   at Metadata#1 before assert [C28.by_name_asks_store_for_requested_names] sameSlice(arg1, topicNames) && !useIDs
+//@   at Metadata#2 before assert [C28.by_id_asks_store_for_everything] len(arg1) == 0 && useIDs
+//@   at Metadata#2 after set gall = ret0
+//@   ensures [C28.load_nonnil] err == nil ==> result0 != nil
+//@   ensures [C28.by_id_keeps_cluster_fields] err == nil && gall != nil ==> sameSlice(result0.Brokers, gall.Brokers) && result0.ClusterID == gall.ClusterID && result0.ControllerID == gall.ControllerID
+//@   loop 1 invariant [C28.names_in_request_order] -1 <= rangeindex_1 && rangeindex_1 < len(req.Topics) && !useIDs && len(topicNames) <= rangeindex_1 + 1 && (forall k int :: 0 <= k && k <= rangeindex_1 ==> req.Topics[k].TopicID == zeroID)
+//@   at append#1 before assert [C28.name_is_requested_name] len(arg1) == 1 && req.Topics[rangeindex_1].Topic != nil && arg1[0] == *req.Topics[rangeindex_1].Topic
+//@   loop 2 invariant [C28.index_is_by_topic_id] index != nil && (forall id [16]byte :: has(index, id) ==> index[id].TopicID == id)
+//@   loop 3 invariant index != nil && (forall id [16]byte :: has(index, id) ==> index[id].TopicID == id) && -1 <= rangeindex_3 && rangeindex_3 < len(req.Topics) && gall != nil
+//@   at append#2 before assert [C28.by_id_found_entry_is_snapshot_topic] len(arg1) == 1 && arg1[0].TopicID == req.Topics[rangeindex_3].TopicID && has(index, req.Topics[rangeindex_3].TopicID) && arg1[0] == index[req.Topics[rangeindex_3].TopicID] && req.Topics[rangeindex_3].TopicID != zeroID
+//@   at append#3 before assert [C28.by_id_missing_entry_is_unknown_topic_id] len(arg1) == 1 && arg1[0].TopicID == req.Topics[rangeindex_3].TopicID && !has(index, req.Topics[rangeindex_3].TopicID) && arg1[0].ErrorCode == 100 && len(arg1[0].Partitions) == 0 && req.Topics[rangeindex_3].TopicID != zeroID
+//@   at append#2 before set gn = gn + 1
+//@   at append#3 before set gn = gn + 1
+//@   at loopstep#3 assert [C28.by_id_one_entry_per_nonzero_id] gn == ite(req.Topics[rangeindex_3].TopicID != zeroID, 1, 0)
